@@ -12,5 +12,7 @@ func init() {
 			return
 		}
 		simpleHarnessOv(c, ov, "c09", "c09", nil, nil, 1)
+		// independence from scheduling: the real Registry.WriteOutputs under every completion order of its writers
+		outOrder(c, "C09")
 	}
 }
